@@ -480,6 +480,19 @@ def run_case(case, ctx):
             if not check_one(name, c, data, cls, tcol, fcols, lo, hi, rng, ctx, case, inj=inj):
                 return
             ctx.count("calls_on_reused_instance")
+            if name in ("LabelProbabilityInjector", "LabelDirichletInjector", "LabelSwapInjector", "LabelJoinInjector") and rng.random() < 0.5:
+                # the caller edits the labels of the very same data object in place (one class merged into another) and calls the same
+                # injector on it again
+                ti_ = col_index(data, tcol)
+                if isinstance(data, pd.DataFrame):
+                    data.iloc[:, ti_] = [cls[1] if eq(v, cls[0]) else v for v in data.iloc[:, ti_]]
+                else:
+                    data[data[:, ti_] == cls[0], ti_] = cls[1]
+                lo = int(rng.integers(0, n + 1))
+                hi = int(rng.integers(lo, n + 1))
+                if not check_one(name, c, data, cls, tcol, fcols, lo, hi, rng, ctx, case, inj=inj):
+                    return
+                ctx.count("calls_on_the_same_data_object_edited_in_place")
         ctx.nontrivial = True
         ctx.sample = {"kind": "re-used injector instance", "injector": name, "container_sequence": order}
         ctx.digest = "reuse-%s-%s-%s" % (name, order, case["seed"])
